@@ -222,28 +222,28 @@ def run(tier):
                            verus_output=f['verus_output'], generated_file=res['generated'], verus_stats=res['stats'])
             if payload_input:
                 payload['failing_input'] = payload_input
-            rep.violation(key, f['obligation'], payload, found_input)
-            nviol += 1
+            if rep.violation(key, f['obligation'], payload, found_input):
+                nviol += 1
         cov['discharged'] = (res['obligations'] - failed_obl) if res['ok'] or res['failures'] else 0
         if res['ok']:
             cov['discharged'] = res['obligations']
     if found_input and not (res and res['failures']):
         # a concrete failing input on the real code while every obligation verified: an assumed contract
         # (N7 wrapper) no longer describes the code, or the proof was undecided. The input speaks for itself.
-        rep.violation('runner:' + re.sub(r'[^a-z_ ]', '', search['what'].lower())[:60],
-                      'executable form of the C19 contract on the real crate', dict(failing_input=payload_input), True)
-        nviol += 1
+        if rep.violation('runner:' + re.sub(r'[^a-z_ ]', '', search['what'].lower())[:60],
+                      'executable form of the C19 contract on the real crate', dict(failing_input=payload_input), True):
+            nviol += 1
     for lit, where in in_image:
         name = py_demangle(lit)
-        rep.violation('fixed-symbol:' + lit, 'fixed_symbol lemma for "%s" (%s): the literal is the mangled name of %r' % (lit, where, name),
+        if rep.violation('fixed-symbol:' + lit, 'fixed_symbol lemma for "%s" (%s): the literal is the mangled name of %r' % (lit, where, name),
                       dict(failing_input=dict(name_hex=name.hex(), name2_hex=None,
-                                              what='mangle_name(%r) == fixed runtime symbol "%s" declared at %s' % (name, lit, where))), True)
-        nviol += 1
+                                              what='mangle_name(%r) == fixed runtime symbol "%s" declared at %s' % (name, lit, where))), True):
+            nviol += 1
     if max_len is not None and max_len < 39:
-        rep.violation('premise:AOT_SYMBOL_MAX_LEN', 'theorem_no_mix premise max_len >= 39 (AOT_SYMBOL_MAX_LEN = %d)' % max_len,
+        if rep.violation('premise:AOT_SYMBOL_MAX_LEN', 'theorem_no_mix premise max_len >= 39 (AOT_SYMBOL_MAX_LEN = %d)' % max_len,
                       dict(note='with max_len < 39 the "_H" marker can fall inside the "dora_" prefix; a shortened symbol can then equal '
-                                'the unshortened symbol of another name (max_len 38) or lose the prefix'), False)
-        nviol += 1
+                                'the unshortened symbol of another name (max_len 38) or lose the prefix'), False):
+            nviol += 1
 
     cov['samples'] = [
         dict(function='mangle_name', contract='ensures r@ == "dora_" ++ esc_all(name.bytes)   (all &str)'),
